@@ -584,3 +584,85 @@ Proof. exists 8, 512, 16. vm_compute. repeat split; intros; discriminate. Qed.
 
 Lemma legal_example : legal 32 24 8.
 Proof. unfold legal. rewrite two63. repeat split; try lia; vm_compute; congruence. Qed.
+
+(* ---------- blockCount = 1: the dispatch of Allocate / Deallocate on the alignment addend ---------- *)
+Lemma gran_divides_16 A : 1 <= A <= 1024 -> 16 mod (gran A) = 0.
+Proof.
+  intros H. pose proof addend_sweep as S. rewrite forallb_forall in S.
+  assert (In A (map Z.of_nat (seq 1 1024))) as I.
+  { apply in_map_iff. exists (Z.to_nat A). split; [lia|]. apply in_seq. lia. }
+  specialize (S A I). unfold addend_ok in S. repeat (apply andb_prop in S; destruct S as [S ?]).
+  apply Z.eqb_eq. assumption.
+Qed.
+
+Lemma mod16_mod_gran A begin : 1 <= A <= 1024 -> begin mod 16 = 0 -> begin mod (gran A) = 0.
+Proof.
+  intros HA H. destruct (addend_facts A HA) as (_ & _ & Hg). pose proof (gran_divides_16 A HA) as G.
+  apply Z.mod_divide; [lia|]. apply Z.divide_trans with 16; apply Z.mod_divide; try lia; assumption.
+Qed.
+
+Lemma buffersize1_spec B A : 1 <= A <= 1024 -> 0 < B < 2 ^ 62 -> Gen_MemPool.pvGetBufferSize1 B A = B + addend A + 2.
+Proof.
+  intros HA HB. destruct (addend_facts A HA) as (Had & _ & _). change (2 ^ 62) with 4611686018427387904 in HB.
+  unfold Gen_MemPool.pvGetBufferSize1. rewrite addend_indep.
+  rewrite (wrapU_small 64 (B + addend A)) by (rewrite two64; lia). rewrite wrapU_small by (rewrite two64; lia). reflexivity.
+Qed.
+
+(* C09_block1_dispatch_aligned: whatever branch Allocate takes for a single-block pool, for EVERY legal alignment 1..1024
+   (power of two or not) and every manager address that is a multiple of maxAllocAlignment = 16, the block is a multiple of
+   blockAlignment, lies inside the bytes requested from the manager, and Deallocate gives back exactly that manager block.
+   (The raw manager block is used only when the addend is 0, i.e. when blockAlignment = min(16, its lowest set bit), a power of
+   two dividing 16 - that is what makes every 16-aligned address already blockAlignment-aligned.) *)
+Theorem block1_dispatch_aligned B A begin :
+  1 <= A <= 1024 -> 0 < B < 2 ^ 62 -> 0 < begin -> begin mod 16 = 0 -> begin + B + A + 2 < 2 ^ 64 ->
+  exists block size,
+    PoolLayout.alloc1 B A begin = Ok (block, size) /\
+    block mod A = 0 /\ begin <= block /\ block + B <= begin + size /\
+    (forall ld, ld (block + B) = block - begin -> PoolLayout.dealloc1 ld B A block = (begin, size)).
+Proof.
+  intros HA HB Hb0 H16 Htop. destruct (addend_facts A HA) as (Had & Hdiv & Hg).
+  unfold PoolLayout.alloc1, PoolLayout.dealloc1. rewrite addend_indep.
+  destruct (Z.eqb_spec (addend A) 0) as [E|E].
+  - exists begin, (Gen_MemPool.pvGetBufferSize0 B A). split; [reflexivity|].
+    assert (gran A = A) as GA by (unfold gran; lia).
+    split; [rewrite <- GA at 1; apply mod16_mod_gran; assumption|]. split; [lia|].
+    split; [|intros; reflexivity].
+    unfold Gen_MemPool.pvGetBufferSize0. destruct (Z.ltb_spec A B); simpl; lia.
+  - pose proof (buffersize1_spec B A HA HB) as ES.
+    destruct (block1_layout_thm B A begin HA HB) as (block & E1 & M & L1 & L2 & _ & D).
+    + unfold begin_ok. rewrite ES. split; [lia|]. split; [apply mod16_mod_gran; assumption|]. lia.
+    + lia.
+    + unfold PoolLayout.new_block1_layout in E1. destruct (Gen_MemPool.pvNewBlock1 B A begin) as [blk| | |] eqn:N; try discriminate.
+      inversion E1; subst. exists block, (Gen_MemPool.pvGetBufferSize1 B A). split; [reflexivity|].
+      split; [exact M|]. split; [exact L1|]. split; [unfold PoolLayout.offset_width in L2; lia|].
+      intros ld Hld. rewrite (D ld Hld). reflexivity.
+Qed.
+
+(* the raw-manager-block branch is taken exactly for the alignments 1, 2, 4, 8, 16 *)
+Lemma addend_zero_iff A : 1 <= A <= 1024 -> (addend A = 0 <-> A = 1 \/ A = 2 \/ A = 4 \/ A = 8 \/ A = 16).
+Proof.
+  intros H. assert (forallb (fun a => Bool.eqb (addend a =? 0) ((a =? 1) || (a =? 2) || (a =? 4) || (a =? 8) || (a =? 16))) (map Z.of_nat (seq 1 1024)) = true) as S by (vm_compute; reflexivity).
+  rewrite forallb_forall in S.
+  assert (In A (map Z.of_nat (seq 1 1024))) as I by (apply in_map_iff; exists (Z.to_nat A); split; [lia|apply in_seq; lia]).
+  specialize (S A I). apply Bool.eqb_prop in S.
+  split.
+  - intros E. apply Z.eqb_eq in E. rewrite E in S. symmetry in S.
+    repeat (apply orb_true_iff in S; destruct S as [S|S]); apply Z.eqb_eq in S; auto.
+  - intros D. apply Z.eqb_eq. rewrite S. destruct D as [D|[D|[D|[D|D]]]]; rewrite D; reflexivity.
+Qed.
+
+(* the hand-mirrored choice of PoolLayout.alloc1 / dealloc1 is the machine-translated dispatch of pvDeleteBlock(void* ):
+   branch 1 = multi-block pool (pvDeleteBlock(Byte* )), 2 = the manager block itself (Deallocate), 3 = pvDeleteBlock1 *)
+Lemma dispatch_generated C B A blk :
+  Gen_MemPool.pvDeleteBlock_dispatch C B A blk =
+    if C >? 1 then 1 else if Gen_MemPool.pvGetAlignmentAddend B A =? 0 then 2 else 3.
+Proof. reflexivity. Qed.
+
+Lemma dispatch_single_block B A blk ld :
+  (Gen_MemPool.pvDeleteBlock_dispatch 1 B A blk = 2 /\ PoolLayout.dealloc1 ld B A blk = (blk, Gen_MemPool.pvGetBufferSize0 B A)) \/
+  (Gen_MemPool.pvDeleteBlock_dispatch 1 B A blk = 3 /\
+   PoolLayout.dealloc1 ld B A blk = (snd (Gen_MemPool.pvDeleteBlock1 ld B A blk), Gen_MemPool.pvGetBufferSize1 B A)).
+Proof.
+  rewrite dispatch_generated. unfold PoolLayout.dealloc1. change (1 >? 1) with false. cbv iota.
+  destruct (Gen_MemPool.pvGetAlignmentAddend B A =? 0); [left|right]; split; reflexivity.
+Qed.
